@@ -28,6 +28,12 @@ RESTART_HOOK = None
 STATS = {'faults_hit': 0, 'calls': 0}
 _EXECUTOR = None
 _FUTURE_CLS = futures.Future
+_CURRENT = threading.local()
+
+
+def current_address():
+  """Address of the server whose handler runs on this thread (lets a generated task address 'the worker I run on')."""
+  return getattr(_CURRENT, 'address', None)
 
 
 class StatusNotOk(Exception):
@@ -164,6 +170,7 @@ class Client:
           fut.set_exception(StatusNotOk(4, f'deadline exceeded: {method}@{address} is unreachable'))
           return
         try:
+          _CURRENT.address = address
           res = server._handlers[method](*args, **kwargs)  # pylint: disable=protected-access
         except Exception as e:  # pylint: disable=broad-exception-caught
           fut.set_exception(StatusNotOk(2, f'{type(e).__module__}.{type(e).__name__}: {e}'))
